@@ -14,6 +14,9 @@ GENS = [
     # several nested keywords, the failing one after correct ones
     (3, dict(bad_rate=0.5, inplace_rate=0.7, fail_rate=0.3, prefer_nested=True,
              weights={"construct": 1, "scalar": 6, "item": 5, "top": 1})),
+    # writes to an attribute whose dependants are reset through a default factory that may raise
+    (2, dict(bad_rate=0.1, inplace_rate=0.8, fail_rate=0.6, flavour="inv_factory",
+             weights={"construct": 1, "setattr": 4, "delattr": 1, "scalar": 6, "item": 1, "top": 2})),
 ]
 
 
